@@ -33,6 +33,9 @@ class SpecEval(object):
         c = self.ex.lookup_const(name)
         if c is not None:
             return c
+        g = self.ex.lookup_global(self.st, name)
+        if g is not None:
+            return g
         raise SpecError('%s: unknown identifier %r' % (self.what, name))
 
     def term(self, e):
@@ -136,6 +139,13 @@ class SpecEval(object):
 
     def index(self, b, i):
         ex = self.ex
+        if isinstance(b, PtrV) and ex.kind(b.elem) == 'array':
+            at_ = ex.U(b.elem)
+            base = b.addr if b.addr is not None else ('obj', b.elem, b.term)
+            a = ('idx', base, i, at_['elem'])
+            if ex.kind(at_['elem']) == 'array':
+                return PtrV(None, at_['elem'], a)
+            return ex.load(self.st, a)
         b = self.deref(b) if isinstance(b, PtrV) else b
         if isinstance(b, SliceV):
             return ex.elem_load(self.st, b.elem, b.arr, add(b.off, i))
@@ -252,9 +262,31 @@ class SpecEval(object):
                 del self.bound[name]
             else:
                 self.bound[name] = saved
+        # phrase array facts over absolute indices: if the body reads A[k + rest], re-index by j = k + rest
+        cnt = {}
+        for x in subterms(body):
+            if x.op == 'select' and x.args[0].sort in (ARR_II, ARR_IB):
+                r = lin_split(x.args[1], k)
+                if r is not None:
+                    cnt[r] = cnt.get(r, 0) + 1
+        pats = []
+        if cnt:
+            rest = max(cnt, key=lambda r: (cnt[r], -len(smt(r))))
+            if not (rest.is_int() and rest.val == 0):
+                j = const('%s?%dj' % (name, n), INT)
+                m = {k: sub(j, rest)}
+                body = substitute(body, m)
+                lo, hi = add(lo, rest), add(hi, rest)
+                k = j
+            seen = set()
+            for x in subterms(body):
+                if x.op == 'select' and x.args[1] == k and x not in seen and not any(y.op in ('forall', 'exists') for y in subterms(x.args[0])):
+                    seen.add(x)
+                    pats.append(x)
+            pats = pats[:1] if which == 'forall' else []
         rng = and_(le(lo, k), lt(k, hi))
         if which == 'forall':
-            return forall([k], implies(rng, body))
+            return forall([k], implies(rng, body), pats)
         return exists([k], and_(rng, body))
 
     def call(self, e):
@@ -318,6 +350,10 @@ class SpecEval(object):
                 # content_eq(s, t): same length and pointwise equal
                 a, b = self.ev(args[0]), self.ev(args[1])
                 return self.content_eq(a, b)
+            if name in ('mapget', 'maphas'):
+                m = self.ev(args[0])
+                k = self.term(args[1])
+                return ex.map_read(self.st, m, k, name == 'maphas')
             if name == 'allocated':
                 v = self.ev(args[0])
                 t = v.arr if isinstance(v, (SliceV, StrV)) else ex.scalar_term(v)
